@@ -123,6 +123,27 @@ def build_contracts(mod, prop, tier, seed):
     return ctxs, problems
 
 
+def _target_formula(c, f):
+    """The formula the failed obligation claims (to be evaluated on a concrete counterexample)."""
+    name = f["name"].rsplit("/", 1)[1]
+    if f["kind"] == "post":
+        for n, e, _ in c.ensures:
+            if n == name:
+                return e
+    if f["kind"] == "cons":
+        for n, e in c.invs:
+            if n == name:
+                return c.nx(e)
+    if f["kind"] == "comb":
+        for n, impl, spec, method, _ in c.combs:
+            if n == name:
+                return impl == spec
+        for n, fm, _ in c.lemmas:
+            if n == name:
+                return fm
+    return None
+
+
 def triage(c, failed, prop, tier):
     """failed obligations of contract c -> (replay path, reproduced?)"""
     os.makedirs(os.path.join(ROOT, "replays"), exist_ok=True)
@@ -136,7 +157,7 @@ def triage(c, failed, prop, tier):
                     targets.append(("notinv:" + n, z3.Not(e)))
     out = []
     witness = None
-    if targets and c.gnext.keys() >= c.ghosts.keys() and any(u.state for u in c.units):
+    if targets and c.gnext.keys() >= c.ghosts.keys() and (any(u.state for u in c.units) or c.ghosts):   # ghosts alone (combinational unit) also make a history
         try:
             found, secs = prove.bmc(c, targets, c.bmc_depth, timeout_s=(45 if tier == 'quick' else 300))
         except Exception:
@@ -167,7 +188,21 @@ def triage(c, failed, prop, tier):
                     doc["replay"]["note"] = "simulator disagrees with the extracted system: translator defect"
             except Exception:
                 doc["replay"] = {"error": traceback.format_exc()}
-        else:
+        if not reproduced and isinstance(f.get("model"), dict):
+            try:
+                target = _target_formula(c, f)
+                asg = dict(f["model"])
+                if f["kind"] == "comb":
+                    for k_, v_ in c.comb_at.get(f["name"].rsplit("/", 1)[1], {}).items():
+                        asg[str(c.all_inputs().get(k_, k_))] = v_
+                inj = sim.inject(c, asg, target)
+                doc["state_injection_replay"] = inj
+                if f["kind"] == "comb" and inj.get("supported") and inj.get("simulator_agrees_with_extraction") \
+                        and inj.get("obligation_holds") == 0:
+                    reproduced = True      # a combinational claim quantifies over all states: this state is a legitimate input
+            except Exception:
+                doc["state_injection_replay"] = {"error": traceback.format_exc()}
+        if not witness:
             doc["witness"] = None
             doc["note"] = ("no input history from reset violating an ensures clause was found within the BMC depth; "
                            "the counter_model is the solver's counterexample to the failed obligation")
